@@ -116,6 +116,8 @@ def monitor(script):
     accepted_at_save = {0}
     accepted_ever = {0}
     ever_marked = set()
+    cfg_pending = []       # headers.Config.InvalidHeaderHashes as last set by `cfginv`
+    cfg_active = set()     # ... as installed in the invalid list by the last Load (minus what was unmarked since)
     prune_floor = -10**9
     loaded_once = False
     errored = {}                  # id -> internal-error verdict of its submission (C01, third sentence)
@@ -406,6 +408,8 @@ def monitor(script):
                 was = i in accepted
                 if i in invalid and not was:
                     m.hit("C17:marked-accepted", f"header {i} is marked invalid but its submission was accepted")
+                if i in cfg_active and not was and i not in accepted_ever:
+                    m.hit("C17:configured-invalid-accepted", f"header {i} is in the configured invalid hashes the last Load installed but its submission was accepted")
                 accepted.add(i)
                 accepted_ever.add(i)
                 if was and not relearn and (evs or (before["work"] is not None and before != tip)):
@@ -494,6 +498,7 @@ def monitor(script):
                 accepted = set(accepted_at_save)
                 relearn = True
                 loaded_once = True
+                cfg_active = set(cfg_pending)
         elif verb in ("crashsave", "crashclean"):
             if o.get("r", "ok") != "ok":
                 m.hit("C12:op-error", f"`{op}` failed: {oraw[:60]}")
@@ -644,6 +649,9 @@ def monitor(script):
             chain_valid = False
         elif verb == "unmark":
             invalid.discard(int(a["id"]))
+            cfg_active.discard(int(a["id"]))
+        elif verb == "cfginv":
+            cfg_pending = [int(x) for x in parse_list(a.get("ids", "[]"))]
         elif verb == "dump":
             d = Dump(oraw)
             sampled = "step" in a and int(a["step"]) > 1
